@@ -21,7 +21,8 @@ ASSUMPTIONS = [
     "within one case socket ordinals and async message ids are not re-used and operations name live sockets of the right API level "
     "(the harness skips anything else; such operations are no-ops of the composed model Udp.sysStep)",
 ]
-TRUSTED = ["kernel UDP/loopback (the channel assumption is the definition of NetOp.deliver)",
+TRUSTED = ["tools/cxx2lean_eff.py stage 4 (DESIGN.md 0.7.3): the async send queue over Gen.QueueWorld (operations recognised by canonical callee text + argument patterns + provenance of the structured binding), try/catch as M.tryCatch (system_error is-a runtime_error), lock_guard as lock/unlock calls on normal exits only; Model/GenQueueWorld.lean reads the queue models as that interface; dispatch chain: poll bit values from the macro expansion, branches recognised by exact statement text",
+           "kernel UDP/loopback (the channel assumption is the definition of NetOp.deliver)",
            "OS answers of the composed model (Udp.osWait/osSend: sendto fails with EMSGSIZE above 65507 (v4) / 65527 (v6) bytes, otherwise as scripted; "
            "Step: the observed answer of its sendto) - compared with the real kernel / shim on every run",
            "parsing of transcript lines into the typed observations Udp.Obs (Drive/C09.lean)"]
